@@ -62,6 +62,10 @@ def mk_grid(g):
     if k == 'function':
         nodes = [fl(v) for v in g['nodes']]
         return FunctionGrid(NodeFun(nodes), **kw)
+    if k == 'density':
+        from rockit.sampling_method import DensityGrid
+        tau = ca.MX.sym('tau')
+        return DensityGrid(2 + 1e-30 * tau, **kw)       # (numerically) constant density: the uniform nodes
     if k == 'free':
         return FreeGrid(**kw)
     raise ValueError(k)
@@ -229,8 +233,8 @@ def fill(b, st, decl, with_method=True, after_init=False, method_obj=None):
             es = [mx(b, decl['rhs'][i0 + k]) for k in range(r * c)]
             ocp.set_der(X, ca.reshape(ca.vertcat(*es), r, c)); i0 += r * c
     order = list(enumerate(decl['rhs'] if not xb else []))
-    # with derivative scales the derivatives are declared last state first (the order of set_der calls means nothing)
-    if any(fr(s_['dscale']) != 1 for s_ in decl['states']): order.reverse()
+    # the derivatives are declared last state first: the order of set_der calls means nothing
+    order.reverse()
     for i, e in order:
         if decl['dyn'] == 'next':
             ocp.set_next(b.x[i], mx(b, e))
